@@ -630,7 +630,7 @@ def conn_clauses(o, requests_only):
             out.append(("reply-line-malformed", "line"))
         elif o["verdict"] != "accepted":
             out.append(("client-refuses", o["verdict"]))
-        elif o["resp_pdu"] is not None and o["resp_pdu"].hex().encode() + b"\n" != w:
+        elif o["resp_pdu"] is not None and o["resp_pdu"] != bytes.fromhex(w[:-1].decode()):
             out.append(("client-got-other-bytes", "bytes"))
     elif o["verdict"] != "timeout":
         out.append(("answer-from-nowhere", o["verdict"]))
@@ -697,10 +697,10 @@ def conn_label(script, idx):
 
 def run_connections(ctx, rn, reals, names):
     rng = ctx.rng
-    n_models = ctx.pick(5, 30)
+    n_models = ctx.pick(5, 16)
     for real in reals[:n_models]:
         makers = ctor_makers(rng, real)
-        plans = [(ctx.pick(40, 150), False)] * ctx.pick(2, 5) + [(ctx.pick(25, 60), True)] * ctx.pick(6, 20)
+        plans = [(ctx.pick(40, 100), False)] * ctx.pick(2, 4) + [(ctx.pick(25, 50), True)] * ctx.pick(6, 12)
         plans += [(0, False), (1, False)]
         # directed: connections whose every reply is suppressed (TesterPresent, a session change, a reset with the suppress bit)
         sup = [{"adv": 1, "dur": 0, "pdu": "3e80"}]
@@ -709,6 +709,12 @@ def run_connections(ctx, rn, reals, names):
         for rt in list(real.server.services.get(1, {}).get(0x11) or [])[:1]:
             sup.append({"adv": 1, "dur": 0, "pdu": bytes([0x11, 0x80 | int(rt)]).hex()})
         plans += [("script", [dict(x)]) for x in sup] + [("script", [dict(x) for x in sup]), ("script", [dict(sup[0]), {"adv": 1, "dur": 0, "pdu": "3e00"}])]
+        # directed: requests as long as one ISO-TP transfer allows (4095 bytes), on a connection whose reader is built with the
+        # limit run() passes to start_server
+        for n_bytes in (2049, rng.randrange(2050, 4095), 4095):
+            head = rng.choice([bytes([0x2E, 0xF1, 0x90]), bytes([0x31, 0x01, 0x12, 0x34]), bytes([0x36, 0x01]), rbytes(rng, 1, 3)])
+            plans.append(("script", [{"adv": 1, "dur": 0, "pdu": (head + rng.randbytes(n_bytes - len(head))).hex()},
+                                     {"adv": 1, "dur": 0, "pdu": "3e00"}]))
         for n, mixed in plans:
             if n == "script":
                 script = mixed
@@ -750,7 +756,9 @@ def run_connections(ctx, rn, reals, names):
     ctx.exhaustive_parts.append("whole connections (real handle_client, real TCPLinesTransport + UDSClient.request_unsafe on the other end, "
                                 "virtual time): per exchange the line written, the client's verdict, session / security state, "
                                 "last_time_active, loop alive, both stream buffers; at the end the peer closes (epilogue observed); "
-                                "16 kinds of foreign lines (case, surrounding whitespace, empty, odd length, non-hex, non-ASCII)")
+                                "16 kinds of foreign lines (case, surrounding whitespace, empty, odd length, non-hex, non-ASCII); connections "
+                                "of suppressed requests only; requests of 2049..4095 bytes on a reader with the limit run() passes to "
+                                "asyncio.start_server (run() is called with start_server replaced by a recorder)")
 
 
 def replay_conn(ctx, c):
